@@ -42,10 +42,12 @@ func (sc *metaScn) c06Check(st *metaStep) {
 		sc.deleted = true
 		return
 	}
-	// denied => nothing changed
+	// denied => nothing the property protects has changed: the owner's subscription, anybody's ownership bits, the
+	// owner field and the description of the topic. (A refused {sub} may still record the requester's own new 'want':
+	// that is outside this property.)
 	if st.Code >= 400 {
 		r.Hit("denied_leaves_rows_unchanged")
-		if eq, what := metaRowsEqual(st.before, st.after); !eq {
+		if eq, what := c06Protected(st.before, st.after, ownerBefore); !eq {
 			r.Violation("denied-but-changed:"+st.Kind+":"+st.Actor, fmt.Sprintf("request answered %d but %s changed", st.Code, what), sc.wit(st, nil))
 		}
 	}
@@ -60,11 +62,16 @@ func (sc *metaScn) c06Check(st *metaStep) {
 				r.Violation("owner-unsubscribed", "owner's {leave unsub} was not refused", sc.wit(st, nil))
 			}
 		}
-		if (st.Kind == "setSelf" || st.Kind == "sub") && plain && (!argMode.IsOwner() || !argMode.IsJoiner()) {
+		selfSet := st.Kind == "setSelf" || st.Kind == "sub" || (st.Kind == "setOther" && st.targetU == st.actorU)
+		if selfSet && plain && (!argMode.IsOwner() || !argMode.IsJoiner()) {
 			r.Hit("owner_cannot_give_up")
-			// 3xx (already subscribed / not modified) is not a refusal but has no effect either
-			if ra := st.after.subs[ownerBefore]; st.Code < 300 || !ra.ModeWant.IsOwner() || !ra.ModeWant.IsJoiner() || !ra.ModeGiven.IsOwner() {
-				r.Violation("owner-gave-up-ownership", fmt.Sprintf("owner's request for mode %q was not refused", st.Arg), sc.wit(st, nil))
+			// 3xx (already subscribed / not modified) is not a refusal but has no effect either; what matters is
+			// that the owner's row keeps O (and the J it had)
+			rb, ra := st.before.subs[ownerBefore], st.after.subs[ownerBefore]
+			lostO := !ra.ModeWant.IsOwner() || !ra.ModeGiven.IsOwner()
+			lostJ := rb.ModeWant.IsJoiner() && !ra.ModeWant.IsJoiner()
+			if st.Code < 300 || lostO || lostJ {
+				r.Violation("owner-gave-up-ownership", fmt.Sprintf("owner's request for mode %q was not refused (code %d, want %s -> %s)", st.Arg, st.Code, rb.ModeWant, ra.ModeWant), sc.wit(st, nil))
 			}
 		}
 	} else {
@@ -106,6 +113,42 @@ func (sc *metaScn) c06Check(st *metaStep) {
 	}
 }
 
+// c06Protected compares what C06 protects: the owner's subscription row, everybody's ownership bits and the
+// topic's owner field and description.
+func c06Protected(a, b metaRows, owner types.Uid) (bool, string) {
+	for uid, ra := range a.subs {
+		rb, ok := b.subs[uid]
+		if !ok {
+			if uid == owner {
+				return false, "the owner's subscription (removed)"
+			}
+			continue
+		}
+		if ra.ModeWant.IsOwner() != rb.ModeWant.IsOwner() || ra.ModeGiven.IsOwner() != rb.ModeGiven.IsOwner() {
+			return false, "ownership bit of " + uid.UserId()
+		}
+		if uid == owner && (ra.ModeWant != rb.ModeWant || ra.ModeGiven != rb.ModeGiven || (ra.DeletedAt == nil) != (rb.DeletedAt == nil)) {
+			return false, "the owner's subscription"
+		}
+	}
+	for uid, rb := range b.subs {
+		if _, ok := a.subs[uid]; !ok && (rb.ModeWant.IsOwner() || rb.ModeGiven.IsOwner()) {
+			return false, "ownership bit of new row " + uid.UserId()
+		}
+	}
+	if (a.topic == nil) != (b.topic == nil) {
+		return false, "topic row existence"
+	}
+	if a.topic != nil {
+		ta, tb := a.topic, b.topic
+		if ta.Owner != tb.Owner || ta.Access != tb.Access || string(ta.Public) != string(tb.Public) || string(ta.Trusted) != string(tb.Trusted) ||
+			strings.Join(ta.Tags, ",") != strings.Join(tb.Tags, ",") {
+			return false, "topic owner / description"
+		}
+	}
+	return true, ""
+}
+
 // c06Owners: exactly one effective owner, matching topics.owner; ownership moves only by acceptance.
 func (sc *metaScn) c06Owners(st *metaStep) {
 	r := sc.r
@@ -140,7 +183,8 @@ func (sc *metaScn) c06Owners(st *metaStep) {
 		prev := sc.owner
 		argMode, plain := parsePlainMode(st.Arg)
 		rb := st.before.subs[owners[0]]
-		legit := st.actorU == owners[0] && (st.Kind == "sub" || st.Kind == "setSelf") && sc.offeredO[owners[0]] && rb.ModeGiven.IsOwner() &&
+		selfSet := st.Kind == "sub" || st.Kind == "setSelf" || (st.Kind == "setOther" && st.targetU == st.actorU)
+		legit := st.actorU == owners[0] && selfSet && sc.offeredO[owners[0]] && rb.ModeGiven.IsOwner() &&
 			((plain && argMode.IsOwner()) || strings.Contains(st.Arg, "+"))
 		if !legit {
 			r.Violation("ownership-moved-without-acceptance:"+st.Kind+":"+st.Actor, fmt.Sprintf("ownership moved from %s to %s in a step which is not the acceptance of an offer by the owner", sc.roleOf(prev), sc.roleOf(owners[0])), sc.wit(st, nil))
